@@ -421,10 +421,15 @@ type cueCase struct {
 	// Steps: a path of keys and element functions for the model ("k:<key>" | "e" for First() / Last() / Index(i) | "c:<key>" for a filter whose condition reads that key of the elements)
 	Steps []string `json:"steps,omitempty"`
 	Q     string   `json:"-"`
+	// QH: the query text in hex, sent to the model for the cases that read a root field somewhere other than the head
+	QH string `json:"qh,omitempty"`
 	Txt   string   `json:"-"`
 }
 
 func (c *Ctx) cueDo(cs cueCase, cls, expect string, unspec bool) cueOut {
+	if cs.Pos != "" && cs.Pos != "at-root" && cs.Pos != "elem" && cs.Pos != "text" && cs.Q != "" {
+		cs.QH = hx(cs.Q)
+	}
 	line, _ := json.Marshal(cs)
 	o := cueValidateGuarded(cs.Q, cs.Txt, cs.CP)
 	oc := o.Line
